@@ -184,7 +184,7 @@ def frames(vc):
     vc.ensure("O-C08-commute.reward", bool((views[0][0] == views[1][0]).all()) and bool((views[0][1] == views[1][1]).all()))
 
 
-@obligation("C08", "assess_jobs", ensures=["O-C08-one-record.submissions", "O-C08-reset"], fns=[CE + "CentralizedTaskingEngine.assess"], mode="Z",
+@obligation("C08", "assess_jobs", ensures=["O-C08-one-record.submissions", "O-C08-reset", "O-C08-reset.keeps-unwritten"], fns=[CE + "CentralizedTaskingEngine.assess"], mode="Z",
             bounded="3 targets x 2 sensors, every decision matrix (symbolic booleans: one path per matrix)",
             note="for every decision matrix each tasked (target, sensor) pair appears in exactly one task-execution submission - the one of its target, listing exactly that target's tasked sensors - and untasked targets get none; the per-step observation list and the sensor pointing changes are reset before any job result is processed")
 def assess_jobs(vc):
@@ -211,7 +211,9 @@ def assess_jobs(vc):
                         _reward_executor=_NS(enqueueJob=lambda r: None, join=lambda: order.append("reward.join")),
                         _task_exec_executor=_NS(enqueueJob=lambda r: jobs.append(r), join=lambda: order.append(("exec.join", list(eng._observations), dict(eng.sensor_changes)))),
                         _database="DB", logger=SF.NullLogger(), _unique_id=5, _importer_db=None, target_indices={10: 0, 11: 1, 12: 2},
-                        calculateRewards=lambda: order.append("calculateRewards"), generateTasking=lambda: gen(eng))
+                        calculateRewards=lambda: order.append("calculateRewards"), generateTasking=lambda: gen(eng),
+                        # records of EARLIER steps that have not been written to the database yet (output step > physics step) are waiting in these queues
+                        _saved_observations=["obs-of-earlier-step"], _saved_missed_observations=["miss-of-earlier-step"], _missed_observations=["miss-of-earlier-step"])
     eng.assess("PRIOR", "NOW")
     ok = []
     for i, tid in enumerate(tl):
@@ -221,6 +223,7 @@ def assess_jobs(vc):
     vc.ensure("O-C08-one-record.submissions", all(ok) and len(jobs) == sum(1 for i in range(nt) if any(bool(D[i, k]) for k in range(ns))))
     joined = [o for o in order if isinstance(o, tuple) and o[0] == "exec.join"]
     vc.ensure("O-C08-reset", len(joined) == 1 and joined[0][1] == [] and joined[0][2] == {} and order.index("calculateRewards") < order.index("generateTasking"))
+    vc.ensure("O-C08-reset.keeps-unwritten", eng._saved_observations[:1] == ["obs-of-earlier-step"] and eng._saved_missed_observations[:1] == ["miss-of-earlier-step"])
 
 
 @obligation("C08", "step_routing", ensures=["O-C08-pointing.applied", "O-C08-routing.observations", "O-C08-routing.one-update-per-estimate"],
